@@ -21,22 +21,23 @@ theorem c09_call_stream_and_buffer (c : Cls) (nkw : Nat) :
   rcases hf : c.fields with _ | ⟨f, _ | ⟨g, r⟩⟩ <;> simp [structCall, metaCall, hf]
 
 /-- **A `bytes` argument is parsed unless the structure shortcut applies**, and the shortcut applies exactly when the class
-    has ONE field, that field's type is a bytes type, it is not a bit-field and its size is the length of the argument
+    has ONE field, that field's type is a bytes type, it is not a bit-field, it is not placed at an explicit non-zero offset
+    (fix F86) and its size is the length of the argument
     (for a structure class, which is not itself a bytes subclass). -/
 theorem c09_call_bytes (c : Cls) (hc : c.isBytes = false) (n nkw : Nat) :
-    (structCall c [.bytes n] nkw = .shortcutStruct ↔ ∃ f, c.fields = [f] ∧ f.isBytes = true ∧ f.bits = false ∧ f.size = some n) ∧
+    (structCall c [.bytes n] nkw = .shortcutStruct ↔ ∃ f, c.fields = [f] ∧ f.isBytes = true ∧ f.bits = false ∧ f.offset = false ∧ f.size = some n) ∧
     (structCall c [.bytes n] nkw ≠ .shortcutStruct → structCall c [.bytes n] nkw = .reads) := by
   rcases hf : c.fields with _ | ⟨f, _ | ⟨g, r⟩⟩
   · simp [structCall, metaCall, hf, hc]
-  · by_cases h : f.isBytes = true ∧ f.bits = false ∧ f.size = some n
+  · by_cases h : f.isBytes = true ∧ f.bits = false ∧ f.offset = false ∧ f.size = some n
     · simp [structCall, hf, h]
-    · have h' : ¬ (f.isBytes = true ∧ f.bits = false ∧ f.size = some n) := h
+    · have h' : ¬ (f.isBytes = true ∧ f.bits = false ∧ f.offset = false ∧ f.size = some n) := h
       simp only [structCall, hf, h, if_false, metaCall, hc]
       simp only [List.cons.injEq, and_true]
       constructor
       · constructor
         · intro hm; simp at hm
-        · rintro ⟨g, rfl, h1, h2, h3⟩; exact absurd ⟨h1, h2, h3⟩ h'
+        · rintro ⟨g, rfl, h1, h2, h3, h4⟩; exact absurd ⟨h1, h2, h3, h4⟩ h'
       · intro _; simp
   · simp [structCall, metaCall, hf, hc]
 
@@ -92,10 +93,11 @@ theorem c11_value_rebuilt (args : List Arg) (nkw : Nat) :
     `add_field("b", uint8)` the same 4 bytes are parsed; a union called with a memoryview is left as parsed, with a value it
     is rebuilt -/
 example :
-    let one : Cls := ⟨false, some 4, [⟨true, false, some 4⟩]⟩
-    let two : Cls := ⟨false, some 5, [⟨true, false, some 4⟩, ⟨false, false, some 1⟩]⟩
+    let one : Cls := ⟨false, some 4, [⟨true, false, some 4, false⟩]⟩
+    let two : Cls := ⟨false, some 5, [⟨true, false, some 4, false⟩, ⟨false, false, some 1, false⟩]⟩
+    let placed : Cls := ⟨false, some 6, [⟨true, false, some 4, true⟩]⟩
     structCall one [.bytes 4] 0 = .shortcutStruct ∧ structCall one [.bytes 3] 0 = .reads ∧ structCall one [.buffer] 0 = .reads ∧
-    structCall two [.bytes 4] 0 = .reads ∧ unionPost [.buffer] 0 = .asParsed ∧ unionPost [.value] 0 = .rebuild ∧
+    structCall two [.bytes 4] 0 = .reads ∧ structCall placed [.bytes 4] 0 = .reads ∧ unionPost [.buffer] 0 = .asParsed ∧ unionPost [.value] 0 = .rebuild ∧
     metaCall ⟨true, some 4, []⟩ [.bytes 4] = .shortcutScalar := by decide
 
 end Cstruct.Call.C09
